@@ -168,6 +168,9 @@ var solvers = []solverSpec{
 		return []string{"cvc5", "--lang=smt2", fmt.Sprintf("--tlimit-per=%d", t), "--incremental", "--produce-models", "--fp-exp"}
 	}, func(q string) string { return "(set-logic ALL)\n" + q }},
 	{"z3-4.8.12", func(t int) []string { return []string{"z3", "-in", fmt.Sprintf("-t:%d", t)} }, nil},
+	{"z3-5.1.0-ematch", func(t int) []string {
+		return []string{"z3-new", "-in", fmt.Sprintf("-t:%d", t), "smt.mbqi=false", "smt.auto_config=false"}
+	}, nil},
 }
 
 // runSolver runs one standalone query (full script, ending in check-sat and optional
